@@ -43,6 +43,7 @@ type gCmd struct {
 	For       []string // probe loops
 	Silent    bool
 	DeferTplV bool // deferred call passes V: '{{.V}}' (known-defect trigger, C02 only)
+	Glued     bool // probe: START and END lines come from one printf (two writes, no cancellation point between them)
 }
 
 type gTask struct {
@@ -123,6 +124,7 @@ type gBias struct {
 	MaxInst      int
 	VEnvSub      bool // allow when_changed tasks whose V surfaces only in env / sub-call vars (C06 known defect)
 	DeferCallTpl bool // allow templated vars in deferred calls (C02 known defect)
+	FailMix      bool // a third of the programs are failure-rich (failing commands under ignore_error callers)
 	ForceFlags   bool
 	Cancel       bool
 	FanIn        bool
@@ -184,6 +186,9 @@ func genRef(ch *vs.Choices, p *gProg, from, n int, b gBias, allowLoop bool) (gRe
 
 func genG(ch *vs.Choices, b gBias) *gProg {
 	p := &gProg{}
+	if b.FailMix && ch.Bool(1, 3) {
+		b.PFail, b.PIgnore = 25, 35
+	}
 	n := 2 + ch.Draw(b.MaxTasks-1)
 	if ch.Bool(1, 6) {
 		p.FileRun = []string{"once", "when_changed", "always"}[ch.Draw(3)]
@@ -227,6 +232,7 @@ func genG(ch *vs.Choices, b gBias) *gProg {
 				if ch.Pct(b.PLoop) {
 					c.For = []string{"x", "y", "z"}[:1+ch.Draw(3)]
 				}
+				c.Glued = ch.Bool(1, 3) && c.Fail == 0
 			}
 			if ch.Pct(b.PDefer) {
 				c.Defer = true
@@ -319,6 +325,21 @@ func genG(ch *vs.Choices, b gBias) *gProg {
 		case 1:
 			p.AssumeTerm = true
 			p.Answer = []string{"y", "n", "eof", "yes", "junk"}[ch.Draw(5)]
+		}
+	}
+	if b.PGuard > 0 && n >= 2 && ch.Bool(1, 5) {
+		// the same guarded, deduplicated task called several times in a row with independently drawn values: a
+		// requires/enum guard is a property of each call, not of the one shared execution
+		tg := p.Tasks[1+ch.Draw(n-1)]
+		tg.Requires = []string{"set", "enum"}[ch.Draw(2)]
+		tg.Run = []string{"once", "when_changed"}[ch.Draw(2)]
+		tg.Platform, tg.Precond, tg.Prompt, tg.Internal = "", 0, false, false
+		for k := 0; k < 2+ch.Draw(2); k++ {
+			r := gRef{Target: tg.Idx}
+			if ch.Bool(4, 5) {
+				r.VMode, r.VLit = vLit, vPool[ch.Draw(len(vPool))]
+			}
+			p.Tasks[0].Cmds = append(p.Tasks[0].Cmds, gCmd{Kind: gCall, Ref: r})
 		}
 	}
 	for i := range p.Roots {
@@ -496,7 +517,7 @@ func renderFor(r gRef) string {
 	if r.Matrix != nil {
 		axis := func(i int) string {
 			if r.MatrixRef&(1<<i) != 0 {
-				return fmt.Sprintf("{ref: 'splitList \" \" \"%s\"'}", strings.Join(r.Matrix[i], " "))
+				return fmt.Sprintf("{ref: 'concat (list) (splitList \" \" \"%s\")'}", strings.Join(r.Matrix[i], " "))
 			}
 			return "[" + strings.Join(r.Matrix[i], ", ") + "]"
 		}
@@ -525,6 +546,11 @@ func probeText(p *gProg, t *gTask, idx int, c gCmd) string {
 	s := fmt.Sprintf("echo %sS|%s|%s|%s|%s%s", q, pe, t.Name, lab, extra, q)
 	if c.Fail > 0 {
 		return s + fmt.Sprintf("; exit %d", c.Fail)
+	}
+	if c.Glued {
+		// one builtin, two writes: a command that is under way when its task is cancelled still finishes (like a
+		// process that does not die at once) -- work that outlives a cancellation stays visible
+		return fmt.Sprintf("printf '%%s\\n' %sS|%s|%s|%s|%s%s %sE|%s|%s|%s%s", q, pe, t.Name, lab, extra, q, q, pe, t.Name, lab, q)
 	}
 	return s + fmt.Sprintf("; echo %sE|%s|%s|%s%s", q, pe, t.Name, lab, q)
 }
